@@ -446,3 +446,28 @@ pub fn sliding_window_slice(frame: &CorpusFrame, start_bit: usize) -> (u64, Opti
     }
     (done, None)
 }
+
+/// A damaged frame followed by every possible 3-byte continuation (top byte fixed per slice) and
+/// three more bytes: whatever follows a damaged frame, it stays NotValid. (On correct code the
+/// bytes behind a candidate are not looked at; a framer whose digest range or checksum position
+/// depends on the slice end would accept one continuation in 2^24.) Returns the accepted buffer.
+pub fn continuation_slice(damaged: &[u8], top: u8) -> (u64, Option<Vec<u8>>) {
+    use rtcm_rs::prelude::*;
+    let n = damaged.len();
+    let mut buf = damaged.to_vec();
+    buf.extend_from_slice(&[top, 0, 0, 0, 0, 0]);
+    let mut done = 0u64;
+    for low in 0..=0xFFFFu32 {
+        buf[n + 1] = (low >> 8) as u8;
+        buf[n + 2] = low as u8;
+        for tail in [0usize, 3] {
+            done += 1;
+            let slice = &buf[..n + 3 + tail];
+            let rejected = matches!(std::panic::catch_unwind(std::panic::AssertUnwindSafe(|| MessageFrame::new(slice).map(|_| ()))), Ok(Err(RtcmError::NotValid)));
+            if !rejected {
+                return (done, Some(slice.to_vec()));
+            }
+        }
+    }
+    (done, None)
+}
